@@ -230,7 +230,7 @@ def _rand_c20(rng, tier, sc0):
                 # exercised once per run by spec/regress/C20.ndjson instead of at random (each costs the 5 s
                 # hang detection): buffered stdout/stderr as default channel, and an inner record addressed
                 # to a SyslogWriter that is formatting the outer one.
-                std_buf = cfg["primary"] in ("stdout", "stderr") and cfg["mode"] == "buf"
+                std_buf = False   # both deadlocks are repaired in /repo (7408e36, 6ca5627): no exclusion any more
                 if not std_buf:
                     s["rec"] = True
                     if brace:
